@@ -59,20 +59,28 @@ Definition prepare_record (buf : list byte) (id fc : N) : outcome (list byte) :=
   do b1 <- put_at buf 0 (be 2 id);
   put_at b1 2 (be 2 fc).
 
-(* AddInfoElement per element: refuses a non-empty value *)
-Fixpoint tpl_add_v1 (els : list (ie * value)) (buf : list byte) (minlen : N) : outcome (list byte * N) :=
+(* AddInfoElement per element: refuses a non-empty value. Each element appends its specifier
+   to t.buffer; the appended bytes are collected first and attached to the buffer once (the
+   same bytes, in linear time). *)
+Fixpoint tpl_specs_v1 (els : list (ie * value)) (minlen : N) : outcome (list byte * N) :=
   match els with
-  | [] => Ok (buf, minlen)
+  | [] => Ok ([], minlen)
   | (e, v) :: r =>
-      if is_empty v then tpl_add_v1 r (buf ++ field_spec e) (minlen_add minlen e)
+      if is_empty v then
+        do (t, m) <- tpl_specs_v1 r (minlen_add minlen e);
+        Ok (field_spec e ++ t, m)
       else Err ErrValue
   end.
+Definition tpl_add_v1 (els : list (ie * value)) (buf : list byte) (minlen : N) : outcome (list byte * N) :=
+  do (t, m) <- tpl_specs_v1 els minlen; Ok (buf ++ t, m).
 (* NewTemplateRecordFromElements: addInfoElement per element, no value test *)
-Fixpoint tpl_add_v2 (els : list (ie * value)) (buf : list byte) (minlen : N) : list byte * N :=
+Fixpoint tpl_specs_v2 (els : list (ie * value)) (minlen : N) : list byte * N :=
   match els with
-  | [] => (buf, minlen)
-  | (e, _) :: r => tpl_add_v2 r (buf ++ field_spec e) (minlen_add minlen e)
+  | [] => ([], minlen)
+  | (e, _) :: r => let '(t, m) := tpl_specs_v2 r (minlen_add minlen e) in (field_spec e ++ t, m)
   end.
+Definition tpl_add_v2 (els : list (ie * value)) (buf : list byte) (minlen : N) : list byte * N :=
+  let '(t, m) := tpl_specs_v2 els minlen in (buf ++ t, m).
 
 Definition nels (els : list (ie * value)) : N := N.of_nat (length els).
 
